@@ -234,6 +234,8 @@ BeginAppend(l) ==
   /\ pc' = "a_exists"
   /\ UNCHANGED <<par, fix, fsvars, todo, recvars, budvars, obsvars>>
 
+DoAppend == Step("append") /\ BeginAppend(LenOf(Head(todo)[2]))
+
 Goto(l) == pc' = l /\ UNCHANGED <<par, fix, todo, recvars, rec, nextRid, budvars, obsvars>>
 
 AExists  == pc = "a_exists" /\ Goto(IF cur \in ex THEN "a_getsize" ELSE "j_open") /\ UNCHANGED <<fsvars, ap>>
@@ -344,7 +346,7 @@ Crash ==
 SysNext ==
   \/ NewFile \/ Trunc \/ CdxInit \/ (\E d \in BOOLEAN : CHdr(d)) \/ Started
   \/ Flush \/ Move \/ SessEnd \/ Closed
-  \/ (Step("append") /\ BeginAppend(LenOf(Head(todo)[2])))
+  \/ DoAppend
   \/ AExists \/ AGetsize \/ JOpen \/ JWrite \/ JClose \/ AOpen \/ (\E fl \in BOOLEAN : AWrite(fl)) \/ AClose
   \/ JRemove \/ AGetsize2 \/ COpen \/ CWrite \/ CClose \/ ADone
   \/ JFClose \/ (\E fl \in BOOLEAN : AFClose(fl)) \/ ROpen \/ RTrunc \/ RClose \/ JFRemove \/ Raise
